@@ -48,8 +48,16 @@ def mk_spec(s: Dict[str, Any]):
 
     return CPPCodeSpecification(
         s["name"], list(s["includes"]), list(s["args"]), list(s["code"]), s["result"], parse_type(s["retType"]),
-        bool(s["isCollection"]), s.get("methodObject"), "xAOD::Jet_v1" if s.get("methodObject") else None,
+        bool(s["isCollection"]), s.get("methodObject"), instance_object_of(s),
     )
+
+
+def instance_object_of(s: Dict[str, Any]) -> Optional[str]:
+    """The optional key `instance_object` of a specification.  Cases written before the key was varied do not carry
+    it: they keep what the harness always did then (present exactly when `method_object` is)."""
+    if "instanceObject" in s:
+        return s["instanceObject"]
+    return "xAOD::Jet_v1" if s.get("methodObject") else None
 
 
 def cv_json(cv) -> Dict[str, Any]:
@@ -242,14 +250,25 @@ def metadata_of(s: Dict[str, Any]) -> Dict[str, Any]:
           "arguments": list(s["args"]), "code": list(s["code"]), "result_name": s["result"], "return_type": s["retType"]}
     if s["isCollection"]:
         md["return_is_collection"] = True
-    if s.get("methodObject"):
+    if s.get("methodObject") is not None:
         md["method_object"] = s["methodObject"]
-        md["instance_object"] = "xAOD::Jet_v1"
+    if instance_object_of(s) is not None:
+        md["instance_object"] = instance_object_of(s)
     return md
 
 
+ELEMENT_TYPE = {"atlas": "xAOD::Jet", "cms_aod": "reco::Muon", "cms_miniaod": "pat::Muon"}
+
+
+def chain_metadata(backend: str, chain: List[str]) -> List[Dict[str, Any]]:
+    """`add_method_type_info` for the methods a receiver chain goes through: each returns a pointer to the element type"""
+    ty = ELEMENT_TYPE[backend]
+    return [{"metadata_type": "add_method_type_info", "type_string": ty, "method_name": m, "return_type": ty + "*"}
+            for m in dict.fromkeys(chain)]
+
+
 def translate_query(backend: str, specs: List[Dict[str, Any]], select_src: str, second_select: Optional[str] = None,
-                    first_stage: Optional[str] = None) -> Dict[str, Any]:
+                    first_stage: Optional[str] = None, recv_chain: Optional[List[str]] = None) -> Dict[str, Any]:
     """Public path only: metadata -> apply_ast_transformations -> write_cpp_files; returns the text of the
     generated source file or the exception class."""
     import importlib
@@ -261,11 +280,20 @@ def translate_query(backend: str, specs: List[Dict[str, Any]], select_src: str, 
             q = dataset()
             for s in specs:
                 q = q.MetaData(metadata_of(s))
-            if first_stage is not None:
+            if recv_chain:
+                # the receiver of the call sites is a lambda parameter that stands for `j.m1().m2()…`: the elements of
+                # a Select'ed sequence consumed by Aggregate (`select_src` is the two-parameter lambda `acc, j`)
+                for md in chain_metadata(backend, recv_chain):
+                    q = q.MetaData(md)
+                steps = "".join(f".{m}()" for m in recv_chain)
+                q = q.Select(f"lambda e: {coll}.Select(lambda j0: j0{steps}).Aggregate(0.0, {select_src})")
+                select_src = None
+            elif first_stage is not None:
                 q = q.Select(first_stage)
             else:
                 q = q.SelectMany(f"lambda e: {coll}")
-            q = q.Select(select_src)
+            if select_src is not None:
+                q = q.Select(select_src)
             if second_select:
                 q = q.Select(second_select)
             a = q.value()
@@ -282,6 +310,46 @@ def translate_query(backend: str, specs: List[Dict[str, Any]], select_src: str, 
     except Exception as e:  # noqa
         return {"err": type(e).__name__, "msg": str(e)[:200]}
     return {"text": text, "marker": marker}
+
+
+def registered_table(backend: str, specs: List[Dict[str, Any]], names: List[str]) -> Dict[str, Any]:
+    """The `method_names` table `apply_ast_transformations` hands to `cpp_ast_finder` for a query carrying the
+    metadata of `specs` (attached in that order), observed at the point of use — the class is wrapped for the duration of
+    the call, nothing in /repo is touched — and each entry of interest recovered from the behaviour of its callback on
+    probe calls (`probe_handler`).  -> {"ok": [[name, handler JSON | None]..]} | {"err": ..} | {"unobservable": why}"""
+    import importlib
+
+    import func_adl_xAOD.common.cpp_ast as cpp_ast
+
+    mod, cls, fname, marker, coll = BACKENDS[backend]
+    exe_cls = getattr(importlib.import_module(mod), cls)
+    seen: Dict[str, Any] = {}
+    orig = cpp_ast.cpp_ast_finder
+
+    class recording_finder(orig):  # type: ignore
+        def __init__(self, method_names, *a, **kw):
+            seen["table"] = dict(method_names)
+            super().__init__(method_names, *a, **kw)
+
+    cpp_ast.cpp_ast_finder = recording_finder
+    try:
+        with quiet():
+            q = dataset()
+            for s in specs:
+                q = q.MetaData(metadata_of(s))
+            a = q.SelectMany(f"lambda e: {coll}").Select("lambda j: j.pt()").value()
+            exe_cls().apply_ast_transformations(a)
+    except Exception as e:  # noqa
+        return {"err": type(e).__name__, "msg": str(e)[:200]}
+    finally:
+        cpp_ast.cpp_ast_finder = orig
+    if "table" not in seen:
+        return {"unobservable": "apply_ast_transformations did not construct cpp_ast.cpp_ast_finder through the module attribute"}
+    out = []
+    with quiet():
+        for n in names:
+            out.append([n, probe_handler(seen["table"][n]) if n in seen["table"] else None])
+    return {"ok": out}
 
 
 DECL_RE = re.compile(r"^([A-Za-z_][\w:<>,\* ]*?) ([A-Za-z_]\w*)( \((.*)\))?;$")
@@ -332,7 +400,7 @@ def parse_body(text: str, marker: str) -> Dict[str, Any]:
     start = next(k for k, l in enumerate(lines) if FOR_RE.match(l) and lines[k + 1] == "{")
     loop_var = FOR_RE.match(lines[start]).group(1)
     items, _ = _block(lines, start + 1)
-    decls, blocks, cols, loops, bad = [], [], [], [], []
+    decls, blocks, cols, loops, bad, assigns = [], [], [], [], [], []
     seen_stmt = False
     for it in items:
         if isinstance(it, str):
@@ -347,6 +415,8 @@ def parse_body(text: str, marker: str) -> Dict[str, Any]:
             a = ASSIGN_RE.match(it)
             if a and a.group(1).startswith("_col"):
                 cols.append(a.group(2))
+            elif a:
+                assigns.append([a.group(1), a.group(2)])
         elif it[0] == "block":
             seen_stmt = True
             sub = it[1]
@@ -361,4 +431,35 @@ def parse_body(text: str, marker: str) -> Dict[str, Any]:
         else:
             seen_stmt = True
     return {"loop_var": loop_var, "decls": decls, "blocks": blocks, "cols": cols, "loops": loops,
-            "includes": includes, "bad": bad}
+            "includes": includes, "bad": bad, "assigns": assigns}
+
+
+def split_sum(rhs: str, acc: str) -> List[str]:
+    """`(((acc+t1)+t2)+t3)` -> [t1, t2, t3]: every binary operation the translator writes is bracketed, so the last `+`
+    at bracket depth 0 inside the outer brackets separates the last term."""
+    parts: List[str] = []
+    s = rhs
+    while s != acc:
+        if not (s.startswith("(") and s.endswith(")")):
+            raise ValueError(f"not a bracketed sum over {acc}: {rhs}")
+        inner, depth, cut = s[1:-1], 0, -1
+        for i, ch in enumerate(inner):
+            if ch == "(":
+                depth += 1
+            elif ch == ")":
+                depth -= 1
+            elif ch == "+" and depth == 0:
+                cut = i
+        if cut < 0:
+            raise ValueError(f"not a bracketed sum over {acc}: {rhs}")
+        parts.append(inner[cut + 1:])
+        s = inner[:cut]
+    return parts[::-1]
+
+
+def agg_columns(b: Dict[str, Any]) -> List[str]:
+    """the terms added to the accumulator by the loop body of an Aggregate query (see translate_query, recv_chain)"""
+    own = [(l, r) for l, r in b["assigns"] if r.lstrip("(").startswith(l + "+")]
+    if len(own) != 1:
+        raise ValueError(f"expected one accumulator update in the loop body, found {b['assigns']}")
+    return split_sum(own[0][1], own[0][0])
